@@ -307,7 +307,8 @@ def natural_run(tdgl, p, tmp=None):
     from tdgl.solver.solver import TDGLSolver
 
     sandbox = Path(tempfile.mkdtemp(prefix="stepnat", dir=tmp))
-    dev = devices.make(tdgl, p.get("dev", "bar"), mel=p.get("mel", 0.8), probes=0)
+    dev = devices.make(tdgl, p.get("dev", "bar"), mel=p.get("mel", 0.8), probes=0,
+                       length_units=p.get("length_units", "um"), scale=p.get("scale", 1.0))
     adaptive = p.get("adaptive", True)
     screening = p.get("screening", False)
     dt_init = p["dt_init"]
@@ -514,6 +515,9 @@ def strip_trace(t):
 # --------------------------------------------------------------------------- kernel
 
 
+KERNEL_SCALES2 = [0, -30, -20, -10, 10]       # coordinate scales 2^e: about 1e-9, 1e-6, 1e-3, 1, 1e3
+
+
 def _lcm(xs):
     l = 1
     for x in xs:
@@ -527,11 +531,15 @@ def kernel_exact(tdgl, args, tmp=None):
     from tdgl.solver.screening import get_A_induced_numba
 
     out = []
-    for inst in args["instances"]:
-        sites = np.array(inst["sites"], float)
-        evals = np.array(inst["evals"], float)
+    for num, inst in enumerate(args["instances"]):
+        # coordinate scale c = 2^e (exact in binary): points * c, areas * c^2  =>  the sum scales by exactly c
+        # (ScreenKernel.ScaleCovariant); the result is divided by c (exact) before it is mapped to the integers
+        e2 = inst.get("scale2", KERNEL_SCALES2[num % len(KERNEL_SCALES2)])
+        c = 2.0 ** e2
+        sites = np.array(inst["sites"], float) * c
+        evals = np.array(inst["evals"], float) * c
         K = np.array(inst["K"], float)
-        area = np.array(inst["area"], float)
+        area = np.array(inst["area"], float) * c * c
         ds = []
         for e in inst["evals"]:
             for s in inst["sites"]:
@@ -544,6 +552,8 @@ def kernel_exact(tdgl, args, tmp=None):
         got[:] = np.nan
         get_A_induced_numba(K, area, sites, evals, got)
         ref = ref_induced(K, area, sites, evals)
+        got = got / c
+        ref = ref / c
 
         def q(x):
             y = float(x) * L
@@ -554,7 +564,7 @@ def kernel_exact(tdgl, args, tmp=None):
 
         out.append({"kind": "exact", "sites": inst["sites"], "evals": inst["evals"], "K": inst["K"], "area": inst["area"],
                     "L": L, "got": [[q(v) for v in row] for row in got], "ref": [[q(v) for v in row] for row in ref],
-                    "tlc": inst.get("A")})
+                    "scale2": e2, "tlc": inst.get("A")})
     return out
 
 
@@ -568,7 +578,7 @@ def kernel_random(tdgl, args, tmp=None):
         rng = np.random.default_rng(seed)
         n = int(rng.integers(1, 160))
         m = int(rng.integers(1, 220))
-        ext = 10.0 ** rng.uniform(-2, 3)
+        ext = 10.0 ** rng.uniform(-9, 3)        # coordinate scale: nanometres expressed in metres ... kilo-units
         sites = rng.uniform(-ext, ext, size=(n, 2))
         kind = seed % 3
         if kind == 0:      # edge centres of a random pairing of the sites (as in a mesh), never on a site
@@ -578,7 +588,7 @@ def kernel_random(tdgl, args, tmp=None):
         else:
             evals = rng.uniform(-2 * ext, 2 * ext, size=(m, 2))
         J = rng.normal(size=(n, 2)) * 10.0 ** rng.uniform(-3, 3, size=(n, 1))
-        area = 10.0 ** rng.uniform(-4, 2, size=n)
+        area = ext * ext * 10.0 ** rng.uniform(-4, 2, size=n)
         if kind == 2:
             area[rng.integers(0, n)] = 0.0
             J[rng.integers(0, n)] = 0.0
@@ -596,7 +606,7 @@ def kernel_random(tdgl, args, tmp=None):
         noarea = ref_induced(J, np.ones(n), sites, evals)
         sens = float(np.max(np.abs(noarea - ref) / scale))
         q = 10 ** 8 if not math.isfinite(worst) else int(min(10 ** 8, math.ceil(worst / 1e-15)))
-        out.append({"kind": "random", "q": q, "seed": int(seed), "n": n, "m": m,
+        out.append({"kind": "random", "q": q, "seed": int(seed), "n": n, "m": m, "log10_extent": round(math.log10(ext), 2),
                     "qnoarea": int(min(10 ** 8, math.ceil(sens / 1e-15)))})
     return out
 
